@@ -791,7 +791,11 @@ func (s *Session) MapExecuteBatchCAS(batch *Batch, dest map[string]interface{}) 
 		return false, nil, err
 	}
 	iter.MapScan(dest)
-	applied = dest["[applied]"].(bool)
+	var ok bool
+	applied, ok = dest["[applied]"].(bool)
+	if !ok && iter.err == nil {
+		iter.err = errors.New("gocql: no boolean [applied] column in the response to a conditional batch")
+	}
 	delete(dest, "[applied]")
 
 	// we usually close here, but instead of closing, just returin an error
@@ -1380,7 +1384,11 @@ func (q *Query) MapScanCAS(dest map[string]interface{}) (applied bool, err error
 		return false, err
 	}
 	iter.MapScan(dest)
-	applied = dest["[applied]"].(bool)
+	var ok bool
+	applied, ok = dest["[applied]"].(bool)
+	if !ok && iter.err == nil {
+		iter.err = errors.New("gocql: no boolean [applied] column in the response to a conditional statement")
+	}
 	delete(dest, "[applied]")
 
 	return applied, iter.Close()
